@@ -205,6 +205,9 @@ func (tm *TypeMap) KeySort(key string, cs *ContractSet) *Sort {
 		}
 		return nil
 	case strings.HasPrefix(key, "E:"):
+		if i := strings.Index(key, "@"); i >= 0 {
+			key = key[:i]
+		}
 		return SArray(SInt, SArray(SInt, parseSort(key[2:])))
 	case strings.HasPrefix(key, "M:"):
 		rest := key[2:]
